@@ -201,6 +201,54 @@ func auditAfterRestart(ctx *Ctx, point string, n int) {
 	}
 }
 
+// default output names (no SetOut) of tasks whose inputs carry two tags: after kill, cleanup and re-run the same
+// names are recognised, no finalized task runs again, the file set equals the uninterrupted run's
+func defaultNamesRestart(ctx *Ctx) {
+	mk := func() *Desc {
+		return &Desc{Name: "c03names", Max: 2, Nodes: []Node{{Name: "s", Kind: "filesource", Paths: []string{"a.txt", "b.txt", "c.txt"}},
+			{Name: "t1", Kind: "maptotags", Arg: "k1"}, {Name: "t2", Kind: "maptotags", Arg: "k2"},
+			{Name: "stagea", Kind: "proc", Cmd: "( echo A >> ../stagea.trace ; cat {i:in} > {o:out} )"},
+			{Name: "stageb", Kind: "proc", Cmd: "( sleep 0.2 ; cat {i:in} > {o:out} )", Outs: map[string]string{"out": "{i:in|basename}.b"}}},
+			Edges: []Edge{{From: "s.out", To: "t1.in"}, {From: "t1.out", To: "t2.in"}, {From: "t2.out", To: "stagea.in"}, {From: "stagea.out", To: "stageb.in"}}}
+	}
+	pre := map[string]string{"a.txt": "a\n", "b.txt": "b\n", "c.txt": "c\n"}
+	names := func(dir string) []string {
+		out := []string{}
+		for p := range listFiles(dir) {
+			if !strings.HasSuffix(p, ".trace") && !strings.HasPrefix(p, "_rec.") {
+				out = append(out, p)
+			}
+		}
+		sort.Strings(out)
+		return out
+	}
+	ref := RunWorkflow(mk(), RunOpts{Pre: pre})
+	defer os.RemoveAll(ref.Dir)
+	if ref.Exit != 0 {
+		ctx.Res.Disagree(Violation{What: "default-names reference run failed: " + firstLine(ref.Stderr), Witness: "default-names"})
+		return
+	}
+	want := names(ref.Dir)
+	dir := newDir()
+	defer os.RemoveAll(dir)
+	r1 := RunWorkflow(mk(), RunOpts{Dir: dir, Pre: pre, Env: []string{"VERIF_CRASH_AT=exec.finalized#4"}})
+	removeLeftovers(dir)
+	before, _ := readFile(dir, "stagea.trace")
+	r2 := RunWorkflow(mk(), RunOpts{Dir: dir})
+	ctx.Res.Eval("default output names across kill, cleanup, re-run", r1.Exit == -1, "default-names")
+	ctx.Res.Count("default-names-restart")
+	after, _ := readFile(dir, "stagea.trace")
+	if r2.Exit != 0 {
+		ctx.Res.Violate(Violation{What: fmt.Sprintf("re-run after cleanup exited %d: %s", r2.Exit, tail(r2.Stderr)), Class: "c03.rerun-failed", Witness: "default-names"})
+		return
+	}
+	if got := names(dir); strings.Join(got, ",") != strings.Join(want, ",") {
+		ctx.Res.Violate(Violation{What: fmt.Sprintf("after kill, cleanup and re-run the files are %v, an uninterrupted run yields %v (stagea ran %d times before the kill and %d times in all for 3 inputs)", got, want, strings.Count(before, "A"), strings.Count(after, "A")), Class: "c03.wrong-files", Witness: "default-names"})
+	} else if strings.Count(after, "A") != 3 {
+		ctx.Res.Violate(Violation{What: fmt.Sprintf("stagea ran %d times in all for 3 inputs: a finalized task was executed again", strings.Count(after, "A")), Class: "c03.reexecuted", Witness: "default-names"})
+	}
+}
+
 // leftovers of a streaming workflow: a FIFO without a temp dir (the run was killed right after the FIFO was
 // created) must make the next run stop, like a leftover temp dir does
 func leftoverFifo(ctx *Ctx) {
@@ -274,6 +322,7 @@ func checkC03(ctx *Ctx) {
 	})
 	leftoverFifo(ctx)
 	auditAfterRestart(ctx, "fin.renamed", 3)
+	defaultNamesRestart(ctx)
 	auditAfterRestart(ctx, "in.cmd.after", 4)
 	ctx.Res.Extra["model_window_witness"] = ctx.Drv.Ask("task.history", "0,0", "w:0:1,w:1:2", "ok", "", "12:1")
 }
